@@ -22,7 +22,7 @@ def budget(tier):
 
 
 def strategy(tier):
-    return gen_spec(**{**tier_opts(tier), **dict(allow_rels=False, allow_wit=True, wit_bias=True, allow_data=False, allow_alias=False, sched="eager", max_methods=3)})
+    return gen_spec(**{**tier_opts(tier), **dict(allow_rels=False, allow_wit=True, wit_bias=True, allow_data=False, allow_alias=False, sched="eager", max_methods=3, fsm_rate=3)})
 
 
 def run_case(case):
